@@ -521,6 +521,56 @@ def r7_codec_stateless(ctx):
         raise AnalysisError('C12.R7: only %d codec functions found' % n)
 
 
+def r8_placeholder_never_data(ctx):
+    """a dict carrying a truthy `_placeholder` and a `num` is a reference to
+    an attachment: reconstruction replaces it by that attachment or fails
+    (bad index / bad type raise, the packet is dropped) - on no path is it
+    handed on as application data (a forged placeholder would reach handlers
+    and be relayed to other clients as if it were a binary reference)."""
+    m = ctx.model
+    f = m.own_method('Packet', '_reconstruct_binary_internal')
+    construct = 'Packet._reconstruct_binary_internal'
+    data_p, att_p = f.params[1:3]
+
+    def oracle(atom, run, st):
+        a = run.expand(atom)
+        t = U(a)
+        if isinstance(a, ast.Call) and U(a.func) == 'isinstance' and \
+                len(a.args) == 2 and U(a.args[0]) == data_p:
+            ty = a.args[1]
+            names = [U(x) for x in (ty.elts if isinstance(ty, ast.Tuple)
+                                    else [ty])]
+            return 'dict' in names
+        if t in ("%s.get('_placeholder')" % data_p,
+                 "%s['_placeholder']" % data_p,
+                 "'_placeholder' in %s" % data_p, "'num' in %s" % data_p):
+            return True
+        return None
+    run = run_function(f, m, oracle=oracle)
+    n = 0
+    for p in run.paths:
+        if not p.normal:
+            continue
+        n += 1
+        v = run.expand(p.value) if p.value is not None else None
+        good = isinstance(v, ast.Subscript) and U(v.value) == att_p
+        others = [('' if c.pol else 'not ') + U(run.expand(c.atom))[:50]
+                  for c in p.conds if 'isinstance' not in U(run.expand(
+                      c.atom)) and '_placeholder' not in U(run.expand(
+                          c.atom)) and "'num' in" not in U(run.expand(c.atom))]
+        ctx.check(good, construct, 'a placeholder dict is replaced by the '
+                  'attachment it names', key='placeholder-as-data',
+                  reason='a dict with a truthy _placeholder and a num is '
+                  'returned as %s%s: a forged placeholder (bad index or '
+                  'type) reaches the application as data instead of making '
+                  'the packet undecodable' % (
+                      txt(v)[:60], ' when ' + ' and '.join(others)
+                      if others else ''), where=where(f))
+    if not n:
+        ctx.bad(construct, 'no-path', 'no returning path for a placeholder '
+                'dict', where(f))
+
+
 def r6_answers(ctx, fam):
     m = ctx.model
     S = SERVER[fam]
@@ -575,6 +625,9 @@ def run(ctx):
              'must be refused) (shared rule)', floor=5)
     from .c04 import r6_manager
     r6_manager(ctx)
+    ctx.rule('C12.R8', 'a placeholder dict never survives reconstruction as '
+             'application data', floor=1)
+    r8_placeholder_never_data(ctx)
     ctx.rule('C12.R7', 'the codec keeps no state outside the packet object '
              '(no shared decoder, no globals, no class-attribute writes)',
              floor=8)
